@@ -4,7 +4,7 @@ import itertools
 
 from .canon import spec_ballot, spec_profile
 
-NAMES = ["b", "A", "é x", "a10", "a9", "Zed", '"q"', "c,d", "10", "2", " z", "Ω", "a'b", "B"]
+NAMES = ["b", "A", "é x", "a10", "a9", "Zed", '"q"', "c,d", "10", "2", " z", "Ω", "a'b", "B", "AB", "1", "12"]
 PLAIN = ["A", "B", "C", "D", "E", "F", "G", "H"]
 
 W_INT = [1, 1, 1, 2, 2, 3, 4, 5, 7]
